@@ -103,6 +103,10 @@ pub struct DriveOpts {
     pub bufsize: Option<usize>,
     pub max_steps: usize,
     pub cfg: GenCfg,
+    /// Percent of step groups that act on long-lived handles (open one / use one),
+    /// which leaves unflushed data in buffers between API calls.
+    pub handle_mix_pct: u64,
+    pub max_handles: usize,
 }
 
 /// Runs one history.  Failures (monitor verdicts, owned divergences, panics) are
@@ -116,7 +120,7 @@ pub fn drive(ctx: &Ctx, case: u64, rng: &mut Rng, rep: &mut Report, opts: DriveO
         let mut sess = Session::create(version, opts.bufsize).map_err(|e| ("create | ok | err".to_string(), format!("create failed: {e}")))?;
         let mut n = 0;
         while n < opts.max_steps {
-            let steps = gen.next(rng, &sess);
+            let steps = if opts.handle_mix_pct > 0 && rng.below(100) < opts.handle_mix_pct { handle_mix(rng, &sess, opts.max_handles) } else { gen.next(rng, &sess) };
             for step in steps {
                 n += 1;
                 if let Step::Api(Op::RemoveStream(_) | Op::RemoveStorage(_) | Op::RemoveStorageAll(_)) = &step {
@@ -162,6 +166,31 @@ pub fn drive(ctx: &Ctx, case: u64, rng: &mut Rng, rep: &mut Report, opts: DriveO
     info
 }
 
+/// A step on a long-lived handle: open one on a stream that has none, or use one.
+pub fn handle_mix(rng: &mut Rng, sess: &Session, max_handles: usize) -> Vec<Step> {
+    use crate::props::handles::{handle_step, HCfg};
+    let open = sess.open_slots();
+    let idx = crate::gen::index(sess);
+    if (open.is_empty() || (open.len() < max_handles && rng.chance(1, 4))) && !idx.streams.is_empty() {
+        for _ in 0..4 {
+            let p = rng.pick(&idx.streams).clone();
+            let names = crate::model::normalise(&p).unwrap();
+            if sess.handle_on(&names).is_none() {
+                return vec![Step::HOpen { slot: sess.free_slot(), path: p, how: crate::engine::OpenHow::Open }];
+            }
+        }
+    }
+    if open.is_empty() {
+        return vec![Step::Api(Op::Walk)];
+    }
+    let slot = *rng.pick(&open);
+    if rng.chance(1, 12) {
+        return vec![Step::HClose { slot }];
+    }
+    let hcfg = HCfg { max_len: 20000, extreme_seeks: true, set_len_pct: 5, raw_rw: true, cap_hint: 1024 };
+    vec![handle_step(rng, sess, slot, &hcfg)]
+}
+
 // ------------------------------------------------------------------ C01
 
 pub struct DumpMonitor;
@@ -203,7 +232,7 @@ pub fn run_c01(ctx: &Ctx, rep: &mut Report) {
         if rng.chance(1, 3) {
             cfg.max_size = 5000;
         }
-        let info = drive(ctx, case, rng, rep, DriveOpts { version, bufsize: None, max_steps, cfg }, &mut DumpMonitor);
+        let info = drive(ctx, case, rng, rep, DriveOpts { version, bufsize: None, max_steps, cfg, handle_mix_pct: 0, max_handles: 0 }, &mut DumpMonitor);
         if info.saw_removal && info.saw_large {
             rep.nontrivial(info.hash);
         }
@@ -334,7 +363,8 @@ pub fn run_c02(ctx: &Ctx, rep: &mut Report) {
         }
         let bufsize = *rng.pick(&[None, None, Some(1024usize), Some(4096)]);
         let mut mon = ReopenMonitor { last_hdr: None, fork_pct: 15 };
-        let info = drive(ctx, case, rng, rep, DriveOpts { version, bufsize, max_steps, cfg }, &mut mon);
+        let mix = *rng.pick(&[0, 0, 25]);
+        let info = drive(ctx, case, rng, rep, DriveOpts { version, bufsize, max_steps, cfg, handle_mix_pct: mix, max_handles: 3 }, &mut mon);
         if info.steps.len() >= 5 && !info.abandoned {
             rep.nontrivial(info.hash);
         }
@@ -433,7 +463,8 @@ pub fn run_c03(ctx: &Ctx, rep: &mut Report) {
         }
         let bufsize = *rng.pick(&[None, Some(1024usize), Some(5000)]);
         let mut mon = RulesMonitor { every: 1, n: 0 };
-        let info = drive(ctx, case, rng, rep, DriveOpts { version, bufsize, max_steps, cfg }, &mut mon);
+        let mix = *rng.pick(&[0, 0, 25]);
+        let info = drive(ctx, case, rng, rep, DriveOpts { version, bufsize, max_steps, cfg, handle_mix_pct: mix, max_handles: 3 }, &mut mon);
         if info.steps.len() >= 5 && info.saw_removal {
             rep.nontrivial(info.hash);
         }
